@@ -147,6 +147,7 @@ struct World
     int64_t op_ready_clock = 0;
     int64_t gui_time_event = -1;
     bool hold_search = false;
+    bool gui_wake = false;
     ref::Game game;
     bool position_set = false;
     std::vector<GoRec> gos;
@@ -215,6 +216,7 @@ struct World
 
 extern World* W;
 extern int64_t W_clock_reads;
+void clock_read_point();
 void poison_entry(World* w, uint64_t key, uint64_t eseed, const engine::Position* pos_for_plausible);
 std::string book_substitute(World* w, const std::string& line);
 void book_check_bestmove(World* w, GoRec& g);
